@@ -1,13 +1,13 @@
 SPECIFICATION Spec
 CONSTANT Kind = "int"
-CONSTANT Dom <- DomInt
+CONSTANT Dom <- DomIntT
 CONSTANT Tol = 0
 CONSTANT One = 1
 CONSTANT Deltas <- DeltasInt
 CONSTANT Factors <- FactorsS
 CONSTANT Divisors <- DivInt
 CONSTANT Halves <- HalvesInt
-CONSTANT Thrower = FALSE
+CONSTANT Thrower = TRUE
 CONSTANT MaxLen = 0
 INVARIANTS TypeOK ExactlyOnce NewValue
 PROPERTY ChangeNotifies
